@@ -471,7 +471,7 @@ func probeOversizeSend(v primitive.ProtocolVersion, n int, dir string) *result {
 	res.Obs["delivered"] = delivered
 	res.Obs["client_closed"] = clientClosed
 	res.Obs["server_closed"] = serverClosed
-	if !delivered && v.SupportsModernFramingLayout() && n > 131071 {
+	if !delivered && specModern(v) && n > 131071 {
 		if !clientClosed || !serverClosed {
 			res.fail("oversize-send", "v%d, %s of %d bytes (does not fit one segment, the write fails): the request failed but the connection did not end - "+
 				"client connection closed: %v, server connection closed: %v (request error: %v)", v, dir, n, clientClosed, serverClosed, res.Obs["request_error"])
@@ -687,7 +687,7 @@ func runRawClient(id string, v primitive.ProtocolVersion, comp primitive.Compres
 	}
 	side := serveEcho(sconn, true)
 	p := newRawPeer(conn, v, comp, script.Chunk)
-	modern := v.SupportsModernFramingLayout()
+	modern := specModern(v)
 
 	// ---- handshake: STARTUP and the response to it are never inside a segment
 	startup := message.NewStartup()
@@ -780,7 +780,7 @@ func runRawClient(id string, v primitive.ProtocolVersion, comp primitive.Compres
 			return res
 		}
 		if err != nil {
-			res.fail("handshake", "no AUTH_SUCCESS: %v", err)
+			res.fail(map[bool]string{true: "wire-format", false: "handshake"}[isNotLegacy(err)], "no AUTH_SUCCESS (version %d): %v", v, err)
 			return res
 		}
 		if _, ok := ar.Body.Message.(*message.AuthSuccess); !ok {
@@ -865,7 +865,9 @@ func runRawClient(id string, v primitive.ProtocolVersion, comp primitive.Compres
 		for {
 			f, err := p.readFrame()
 			if err != nil {
-				if isTimeout(err) {
+				if isNotLegacy(err) {
+					res.fail("wire-format", "version %d, after the handshake, response %d from the server: %v", v, len(responses), err)
+				} else if isTimeout(err) {
 					res.fail("", "timed out waiting for the response to the last request")
 				} else {
 					outcome = "abort"
@@ -1029,7 +1031,7 @@ func runRawServer(id string, v primitive.ProtocolVersion, comp primitive.Compres
 		}
 	}()
 	p := newRawPeer(conn, v, comp, script.Chunk)
-	modern := v.SupportsModernFramingLayout()
+	modern := specModern(v)
 
 	// ---- handshake, server side; STARTUP must be a plain, uncompressed, unframed envelope
 	_ = conn.SetReadDeadline(time.Now().Add(patience()))
@@ -1070,7 +1072,7 @@ func runRawServer(id string, v primitive.ProtocolVersion, comp primitive.Compres
 			}
 			ar = fs[0]
 		} else if ar, err = p.readFrame(); err != nil {
-			res.fail("handshake", "no AUTH_RESPONSE: %v", err)
+			res.fail(map[bool]string{true: "wire-format", false: "handshake"}[isNotLegacy(err)], "no AUTH_RESPONSE (version %d): %v", v, err)
 			return res
 		}
 		m, ok := ar.Body.Message.(*message.AuthResponse)
@@ -1141,7 +1143,7 @@ func runRawServer(id string, v primitive.ProtocolVersion, comp primitive.Compres
 		for range reqs {
 			f, err := p.readFrame()
 			if err != nil {
-				res.fail("", "reading the client's requests: %v", err)
+				res.fail(map[bool]string{true: "wire-format", false: ""}[isNotLegacy(err)], "version %d, after the handshake, request %d of %d written by the client: %v", v, len(gotReq), len(reqs), err)
 				break
 			}
 			gotReq = append(gotReq, f)
